@@ -71,48 +71,12 @@ def run(run_, ctx):
 
 
 def check_sliding(run_, F, pc):
-    fns = {f.name: f for f in glue.fns_of_group(pc, "de_sliding")}
-    f = fns.get("take_n")
-    if not f:
-        run_.bad("BX", "SlidingBuffer::take_n", "not found")
-        return
-    eng = sym.Engine(F, max_visits=2)
-    s = ("P", ("param", 1, f.locals[1]["ty"]))
-    cur, end = ("init", ("F", s, "cursor")), ("init", ("F", s, "end"))
-    ct = ("param", 2, "usize")
-    probs = []
-    oks = errs = 0
-    for p in eng.run(f):
-        if p.ret[0] == "agg" and p.ret[3] == "Err":
-            errs += 1
-            if tbl.error_variant(F, p.ret) != "DeserializeUnexpectedEnd":
-                probs.append("scratch exhaustion returns %s" % sym.show(p.ret))
-            if any(e["k"] == "write" for e in p.events):
-                probs.append("cursor moves on the error path")
-            g = grd.check_consume(p, cur, end, ct, False)
-            if g:
-                probs.append(g)
-        elif p.ret[0] == "agg" and p.ret[3] == "Ok":
-            oks += 1
-            g = grd.check_consume(p, cur, end, ct, True)
-            if g:
-                probs.append(g)
-            v = norm(p.ret[5][0])
-            if not (v[0] == "call" and v[2] == "std::slice::from_raw_parts_mut" and v[3] == (cur, ct)):
-                probs.append("hands out %s, expected from_raw_parts_mut(cursor, ct)" % sym.show(v))
-            wr = [e for e in p.events if e["k"] == "write"]
-            if len(wr) != 1 or wr[0]["loc"] != ("F", s, "cursor"):
-                probs.append("cursor not advanced exactly once")
-            else:
-                a = grd.check_advance(p, wr[0]["val"], cur, end, ct)
-                if a:
-                    probs.append(a + " (slots handed out would overlap)")
-        else:
-            probs.append("unexpected return %s" % sym.show(p.ret))
-    if oks != 1 or errs != 1:
-        probs.append("expected one Ok and one Err path")
-    run_.check(not probs, "BX", "SlidingBuffer::take_n guard", probs[0] if probs else "fails iff ct > remaining; slot=[cursor,cursor+ct); cursor+=ct", f.where(), found=probs)
-    run_.floor("BX", 1)
+    """C11.BX: the scratch buffer as seen through the reader flavors, against the hand-written specification (rules/handspec.py)"""
+    import handspec
+    ren = glue.renames(F, pc, glue.load2("A"))
+    handspec.check(run_, "BX", F, pc, [k for k in handspec.HAND if k.startswith("<de::flavors::io::")],
+                   "reader scratch: fails iff ct > remaining; slot = [cursor, cursor+ct) reserved before exactly one read_exact; cursor += ct", renames=ren)
+    run_.floor("BX", 6)
 
 
 READ_OK = ("read_exact",)
